@@ -185,8 +185,8 @@ theorem wp_vcTail (cmd : Nat) (r1 o1 : Int) (res : Option (Int × Int × Int)) {
     obtain ⟨R1, O1, R2, O2, L⟩ := R
     exact wp_opRun hs cmd R1 O1 R2 O2 L a b c' d Q (fun a s' hp => hQ a s' ⟨hp.1, hp.2.trans hq⟩)
 
-theorem wp_vcRest (hE : EngineOk) (cmd : Nat) (r1 o1 : Int) (x : Int × Int) {s s0 : VS} {c : Prop} (hs : SOk s c)
-    (hq : s.ed.xquit = s0.ed.xquit) (hcur : CurOk s r1 o1) (hx : 0 ≤ x.2) (hmk : MarksIn s) (hsl : SlashOk s)
+theorem wp_vcRest (cmd : Nat) (r1 o1 : Int) (x : Int × Int) {s s0 : VS} {c : Prop} (hs : SOk s c)
+    (hq : s.ed.xquit = s0.ed.xquit) (hcur : CurOk s r1 o1) (hx : 0 ≤ x.2) (hmk : MarksIn s) (hsl : SearchOk s)
     (Q : Nat → VS → Prop) (hQ : ∀ a s', OpPost s0 s' → Q a s') : wp (vcRest cmd r1 o1 x) Q s := by
   unfold vcRest
   wp1
@@ -200,7 +200,7 @@ theorem wp_vcRest (hE : EngineOk) (cmd : Nat) (r1 o1 : Int) (x : Int × Int) {s 
       cases h
       simpa using hm
   · wpn
-    refine wp_viMotion hE r1 o1 s hs hcur hmk hsl _ (fun mv r2 o2 s1 m1 hp _ => ?_)
+    refine wp_viMotion r1 o1 s hs hcur hmk hsl _ (fun mv r2 o2 s1 m1 hp _ => ?_)
     dsimp only
     have hs1 : SOk s1 c := m1.sok hs
     have hq1 : s1.ed.xquit = s0.ed.xquit := m1.2.2.2.1.trans hq
@@ -222,8 +222,8 @@ theorem wp_vcRest (hE : EngineOk) (cmd : Nat) (r1 o1 : Int) (x : Int × Int) {s 
         simpa using hz
 
 /-- **`vc_motion(cmd)`**: an operator with its motion does not trap and keeps the invariant -/
-theorem wp_vcMotion (hE : EngineOk) (cmd : Nat) {s : VS} {c : Prop} (hs : SOk s c) (hr : RowOk s) (hmk : MarksIn s)
-    (hsl : SlashOk s) (Q : Nat → VS → Prop) (hQ : ∀ a s', OpPost s s' → Q a s') : wp (vcMotion cmd) Q s := by
+theorem wp_vcMotion (cmd : Nat) {s : VS} {c : Prop} (hs : SOk s c) (hr : RowOk s) (hmk : MarksIn s)
+    (hsl : SearchOk s) (Q : Nat → VS → Prop) (hQ : ∀ a s', OpPost s s' → Q a s') : wp (vcMotion cmd) Q s := by
   rw [vcMotion_eq]
   wpn
   refine wp_viPrefix s _ (fun a2 s1 p1 => ?_)
@@ -235,7 +235,7 @@ theorem wp_vcMotion (hE : EngineOk) (cmd : Nat) {s : VS} {c : Prop} (hs : SOk s 
   refine wp_viMotionln _ _ _ hr.1 _ (fun mvl r2l s2 p3 _ h0 => ?_)
   have p4 : PfxPost s s2 := p2.trans p3
   have hl : lines s2 = lines s := by unfold Vi.lines; rw [p4.1]
-  refine wp_vcRest hE cmd _ _ _ (hs.congr (by rw [p4.1]) (by rw [p4.1])) (by rw [p4.1])
+  refine wp_vcRest cmd _ _ _ (hs.congr (by rw [p4.1]) (by rw [p4.1])) (by rw [p4.1])
     ((curOk_noeol hs hr _).of_lines hl) h0 (hmk.of_lb (by rw [p4.1])) (hsl.pfx p4) Q hQ
 
 end Neatvi.Lemmas.C05f
